@@ -74,12 +74,23 @@ pub fn make_tz(spec: &Spec) -> TimeZone {
             let (canonical, bytes) = jiff_tzdb::get(name).expect("bundled zone");
             TimeZone::tzif(canonical, bytes).unwrap()
         }
+        // The reference handle for a database zone is built from the same
+        // name and bytes the database reads.
+        Spec::Db(i) => {
+            let i = i as usize % DB_NAMES.len();
+            TimeZone::tzif(DB_NAMES[i], &db_zone_bytes(i)).unwrap()
+        }
         Spec::Static(i) => match i % N_STATIC {
             0 => S0.clone(),
             1 => S1.clone(),
             _ => S2.clone(),
         },
     }
+}
+
+/// Contents of the database's zone files.
+pub fn db_zone_bytes(i: usize) -> Vec<u8> {
+    zonegen::synth_tzif(60_000 + i as u32, i % 2 == 1)
 }
 
 pub const STATIC_NAMES: [&str; N_STATIC as usize] =
@@ -293,6 +304,12 @@ pub trait Env {
     /// and otherwise ignored; the memory model is still checked after the
     /// unwinding, which dropped the API's temporaries.
     fn api_panic(&mut self, api: &'static str);
+    /// `database.get(...)`: the handle and the zone instance it belongs to
+    /// (the model also accounts for the handle the database's cache keeps).
+    fn db_get(&mut self, name: u8, case: u8) -> Option<(TimeZone, u32)>;
+    fn db_reset(&mut self);
+    fn db_advance(&mut self, step: u8);
+    fn db_touch(&mut self, name: u8);
     fn no_alloc_begin(&mut self);
     fn no_alloc_end(&mut self, what: &'static str);
 }
@@ -721,6 +738,16 @@ pub fn apply<E: Env>(me: u8, op: &Op, slots: &mut Slots, env: &mut E) -> bool {
                 None => env.handles(zone, -1),
             }
         }
+        Op::DbGet { dst, name, case } => {
+            if let Some((tz, zone)) = env.db_get(*name, *case) {
+                env.handles(zone, 1);
+                let spec = Spec::Db(*name % DB_NAMES.len() as u8);
+                put(slots, *dst, Some(Slot { val: Val::Tz(tz), zone, spec }), env);
+            }
+        }
+        Op::DbReset => env.db_reset(),
+        Op::DbAdvance { step } => env.db_advance(*step),
+        Op::DbTouch { name } => env.db_touch(*name),
         Op::Send { slot, to } => {
             if let Some(v) = slots[ix(*slot)].take() {
                 env.send(*to, v);
